@@ -14,6 +14,8 @@ Handlers for the Krylov solvers GMRES / FGMRES / LGMRES / IDR(s) / BiCGStab(L) (
                      additionally runs the real `gmres` with restart length `M + K` (C05f `lgmres_first_cycle_refines_gmres`)
     solve_idrs       s omega smoothing replacement maxiter tol abstol ns   A PREC f x0  RAW
     solve_bicgstabl  side L delta convex maxiter tol abstol ns          A PREC f x0
+    bicgstabl_vs_bicgstab  <as solve_bicgstabl>                         the result of `solve_bicgstabl`; the harness additionally
+                     runs the real `bicgstab` when `L = 1` (C05h `bicgstabl_L1_is_bicgstab`)
     hist_gmres | hist_fgmres | hist_lgmres | hist_bicgstabl   <params as above>  n k (A PREC f x0)^k
     hist_idrs        <params as above>  n k RAW (A PREC f x0)^k
 
@@ -92,6 +94,8 @@ def handle (op : String) (args : List String) : Option String :=
   | "hist_fgmres" => histOp pFGMRESPrm (fun p => decide (1 ≤ p.M)) fgmresStep (fun _ n => FGMRES.Work.fresh n) args
   | "hist_lgmres" => histOp pLGMRESPrm (fun p => decide (1 ≤ p.M)) lgmresStep (fun _ n => LGMRES.Work.fresh n) args
   | "solve_bicgstabl" => solveOp pBiCGStabLPrm (fun p => decide (1 ≤ p.L)) bicgstablStep
+      (fun _ n => BiCGStabL.Work.fresh n) args
+  | "bicgstabl_vs_bicgstab" => solveOp pBiCGStabLPrm (fun p => decide (1 ≤ p.L)) bicgstablStep
       (fun _ n => BiCGStabL.Work.fresh n) args
   | "hist_bicgstabl" => histOp pBiCGStabLPrm (fun p => decide (1 ≤ p.L)) bicgstablStep
       (fun _ n => BiCGStabL.Work.fresh n) args
